@@ -1,9 +1,40 @@
-//! C13 — placeholder, filled in below.
-use crate::report::{Acc, CheckInfo, Found, Violation};
-use crate::scenario::Scenario;
-use super::{CheckDef, Tier};
+//! C13 — everything written conforms to the documented 0.6 format (independent decoder).
+
+use crate::report::{Acc, CheckInfo, Found};
+
+use super::c02::{Mode, generate, run_history};
+use super::{CheckDef, Tier, founds};
+
 pub fn def() -> CheckDef {
-    CheckDef { info: CheckInfo { id: "C13", level: "exploration", rule: "", assumptions: &[], real: super::REAL_COMPONENTS, stub: super::STUB_COMPONENTS }, runs: |_| 1, run, execute, expected_probes: &[] }
+    CheckDef {
+        info: CheckInfo {
+            id: "C13",
+            level: "exploration",
+            rule: "one seeded run = one history as in C02 (all option combinations, backups killed before operation k or leaving a zero-length file, deletes, gc); after every archive-changing step the raw store is decoded by the harness's own Snappy/JSON/BLAKE2b reader and checked against doc/format.md (hunk numbering, ordering within and across hunks, tail hunk count, block naming/placement/hash, address ranges, sizes vs the snapshot, kinds/targets). Non-trivial: the history produced at least two archive states; distinct = distinct sequence of store state hashes.",
+            assumptions: &[
+                "zero-length files are accepted only in runs that injected the crash variant which leaves them",
+                "the decoder shares the snap, serde_json and blake2-rfc crates with Conserve (trusted base) but none of Conserve's code",
+            ],
+            real: super::REAL_COMPONENTS,
+            stub: super::STUB_COMPONENTS,
+        },
+        runs: |t| if t.thorough() { 30_000 } else { 1_500 },
+        run,
+        execute: |sc, acc| run_history(sc, acc, Mode::Conformance),
+        expected_probes: &["interrupted_backup", "delete_real", "combined_block", "multi_block_file", "headless_newest_band"],
+    }
 }
-fn run(_seed: u64, _tier: Tier, _acc: &mut Acc) -> Vec<Found> { vec![] }
-pub fn execute(_sc: &Scenario, _acc: &mut Acc) -> Result<Vec<Violation>, String> { Ok(vec![]) }
+
+fn run(seed: u64, tier: Tier, acc: &mut Acc) -> Vec<Found> {
+    let sc = generate(seed, tier, "C13");
+    match run_history(&sc, acc, Mode::Conformance) {
+        Ok(vs) => {
+            acc.sample(sc.compact());
+            founds(&sc, vs)
+        }
+        Err(e) => {
+            acc.harness_errors.push(format!("C13 seed {seed}: {e}"));
+            vec![]
+        }
+    }
+}
